@@ -208,6 +208,10 @@ class Piece:
         for k in range(kb, k1):
             if toks[k].text == "_" and toks[k - 1].text == "|" and toks[k + 1].text == "|":
                 self._add(toks[k].start, toks[k].end, "_unused", "T-CLOSURE")
+        # T-CFG: the unix build is the one verified (acmed only ships for unix): cfg!(unix) is `true`
+        for k in range(kb, k1):
+            if toks[k].text == "cfg" and toks[k + 1].text == "!" and toks[k + 2].text == "(" and toks[k + 3].text == "unix" and toks[k + 4].text == ")":
+                self._add(toks[k].start, toks[k + 4].end, "true", "T-CFG")
         # T-LOG: log::level!( .. )
         k = kb
         while k < k1:
@@ -223,6 +227,22 @@ class Piece:
             k += 1
         # T-ATTR inside bodies: #[cfg(feature = "crypto_openssl")] on statements/blocks (feature is on in every shipped build)
         self._inner_attr_strip(kb, k1)
+        # T-LOG (2): LOGGER.trace|debug|info|warn(&format!(..)) through the HasLogger trait
+        PURE = {"as_raw", "display", "to_string", "to_str", "unwrap_or_default", "len", "as_str", "Some", "code"}
+        k = kb
+        while k < k1:
+            t = toks[k]
+            if t.kind == "ident" and toks[k + 1].text == "." and toks[k + 2].text in ("trace", "debug", "info", "warn") \
+                    and toks[k + 3].text == "(" and toks[k + 4].text == "&" and toks[k + 5].text == "format" \
+                    and toks[k + 6].text == "!" and toks[k - 1].text != ".":
+                close = match_close(toks, k + 3)
+                inner = toks[k + 8:close]
+                for i, x in enumerate(inner):
+                    if x.text == "(" and i > 0 and inner[i - 1].kind == "ident" and inner[i - 1].text not in PURE:
+                        raise Undecided(f"{fn.name}: logger call with a non-pure call `{inner[i-1].text}` in its arguments")
+                self._add(t.start, toks[close].end, "()", "T-LOG")
+                k = close
+            k += 1
         # parameter list
         kp = kf + 2
         if toks[kp].text == "<":
@@ -298,19 +318,20 @@ class Piece:
         fstart, fend = toks[kb].start, toks[k1].end
         ftext = self.sf.text[fstart:fend]
         for anchor in fs.at:
-            where, snippet, occ, text = anchor
+            where, snippet, occ, text = anchor[:4]
+            arule = anchor[4] if len(anchor) > 4 else "insert"
             if where == "loop_start":
                 # ("loop_start", None, k, text): right after the `{` of loop #k
                 if occ < 1 or occ > len(lps):
                     raise Undecided(f"{fn.name}: loop #{occ} not found")
                 p = toks[lps[occ - 1][1]].end
-                self._add(p, p, "\n" + text + "\n", "insert")
+                self._add(p, p, "\n" + text + "\n", arule)
                 continue
             if where == "loop_end":
                 if occ < 1 or occ > len(lps):
                     raise Undecided(f"{fn.name}: loop #{occ} not found")
                 p = toks[match_close(toks, lps[occ - 1][1])].start
-                self._add(p, p, "\n" + text + "\n", "insert")
+                self._add(p, p, "\n" + text + "\n", arule)
                 continue
             pos = -1
             for _ in range(occ):
@@ -333,7 +354,7 @@ class Piece:
                 p = self._stmt_bound(kt, kb, k1, where == "before_stmt")
             else:
                 raise Undecided(f"unknown anchor kind {where}")
-            self._add(p, p, "\n" + text + "\n", "insert")
+            self._add(p, p, "\n" + text + "\n", arule)
         # regex rewrites (closed rule names, logged)
         for rw in fs.rewrites:
             rule, pat, repl = rw[0], rw[1], rw[2]
@@ -461,6 +482,13 @@ class Piece:
             while self.sf.toks[kk].text == "#":
                 kk = match_close(self.sf.toks, kk + 1) + 1
             self._inner_attr_strip(kk, it.k1)
+        if it.kind in ("struct", "enum"):
+            toks = self.sf.toks
+            kk = it.k0
+            while toks[kk].text == "#":
+                kk = match_close(toks, kk + 1) + 1
+            if toks[kk].text != "pub":
+                self._add(toks[kk].start, toks[kk].start, "pub ", "T-VIS")
         if it.kind == "struct" and it.body_open is not None:
             # T-VIS: private fields become `pub` (visibility has no run-time meaning; Verus treats a type with
             # any private field as opaque in contracts of public functions)
